@@ -66,13 +66,25 @@ fn snap(ns: &NodeState) -> Snap {
 
 /// a copy with the given frontier and entries (key, version, status code); entries are written
 /// straight into the map so that any (watermark, max version, entries) combination can be built
+/// when set, a key has the same value in the copy and in every delta whatever the version (an owner
+/// going back to a value a copy already holds); otherwise all values are distinct
+static SAME_VALUES: std::sync::atomic::AtomicBool = std::sync::atomic::AtomicBool::new(false);
+fn same_values() -> bool {
+    SAME_VALUES.load(std::sync::atomic::Ordering::Relaxed)
+}
+fn cval(k: &str, v: u64) -> String {
+    if same_values() { format!("v{k}") } else { format!("{k}{v}") }
+}
+fn dval(k: &str, v: u64) -> String {
+    if same_values() { format!("v{k}") } else { format!("d{k}{v}") }
+}
 fn copy_of(gc: u64, max: u64, entries: &[(&str, u64, u8)]) -> NodeState {
     let mut ns = NodeState::new(id(0), Listeners::default());
     for (k, v, st) in entries {
         ns.key_values.insert(
             k.to_string(),
             VersionedValue {
-                value: format!("{k}{v}"),
+                value: cval(k, *v),
                 version: *v,
                 status: status(*st),
             },
@@ -215,7 +227,7 @@ fn check_apply(copy: &NodeState, nd_parts: (u64, u64, u64, &[(&'static str, u64,
             .iter()
             .map(|(k, v, st)| KeyValueMutation {
                 key: k.to_string(),
-                value: format!("d{k}{v}"),
+                value: dval(k, *v),
                 version: *v,
                 status: mstatus(*st),
             })
@@ -270,7 +282,7 @@ fn check_apply(copy: &NodeState, nd_parts: (u64, u64, u64, &[(&'static str, u64,
         for a in &after.3 {
             let from_old = got_status == DeltaStatus::Apply && before.3.iter().any(|e| e == a);
             let from_delta = kvs.iter().any(|(k, v, st)| {
-                *k == a.0 && format!("d{k}{v}") == a.1 && *v == a.2 && *st == a.3 && *v > base && (*st == 0 || *v > after.0)
+                *k == a.0 && dval(k, *v) == a.1 && *v == a.2 && *st == a.3 && *v > base && (*st == 0 || *v > after.0)
             });
             if !from_old && !from_delta {
                 r.fail("foreign-entry", format!("entry {:?} is neither an old entry nor an admissible delta entry", a), case);
@@ -296,9 +308,11 @@ fn verif_c04_scope() {
     let top: u64 = if tier_thorough() { 6 } else { 4 };
     let mut r = Report::new(
         "c04_scope",
-        &format!("every copy (watermark 0..{top}, max version 0..{top}, 0..3 keys of every status with distinct versions <= max) x every well-formed delta (from 0..{top}, watermark 0..{top}, max version 0..{top}, 0..3 key-values with ascending versions <= max version), whether or not an honest sender could have produced it"),
+        &format!("every copy (watermark 0..{top}, max version 0..{top}, 0..3 keys of every status with distinct versions <= max) x every well-formed delta (from 0..{top}, watermark 0..{top}, max version 0..{top}, 0..3 key-values with ascending versions <= max version), whether or not an honest sender could have produced it; once with all values distinct and once with one value per key (the delta repeats the value the copy holds)"),
         true,
     );
+    for same in [false, true] {
+    SAME_VALUES.store(same, std::sync::atomic::Ordering::Relaxed);
     for g in 0..=top {
         for m in 0..=top {
             for ckv in kv_configs(m) {
@@ -311,7 +325,7 @@ fn verif_c04_scope() {
                                 if !tier_thorough() && dkv.len() == 1 && dkv[0].2 == 2 && ckv.len() > 1 {
                                     continue;
                                 }
-                                let case = format!("copy=(gc{g},max{m},{:?}) delta=(from{from},gc{dgc},max{dmax},{:?})", ckv, dkv);
+                                let case = format!("copy=(gc{g},max{m},{:?}) delta=(from{from},gc{dgc},max{dmax},{:?}){}", ckv, dkv, if same { " same-value-per-key" } else { "" });
                                 if let Some(rc) = replay_case() {
                                     if rc != case {
                                         continue;
@@ -332,6 +346,8 @@ fn verif_c04_scope() {
             }
         }
     }
+    }
+    SAME_VALUES.store(false, std::sync::atomic::Ordering::Relaxed);
     r.emit();
 }
 
